@@ -13,7 +13,19 @@ REG = dict(
         "band_coverage_any_continuous_F; lemmas in OpdaProofs/RectPIT.lean)",
         "CITED, NOT PROVED: Dvoretzky-Kiefer-Wolfowitz inequality with Massart's constant (named hypothesis hDKW of "
         "dkw_coverage_of_massart)",
-        "the law Beta(cN,(1-c)N+1) of the simulated critical value's coverage (ld methods) and scipy.stats.beta.ppf for its quantiles",
+        "PROVED (no longer trusted): the Beta law of a simulated order statistic (ld methods): for N i.i.d. draws T_1..T_N from any "
+        "probability measure with continuous distribution function F, F(T_(k)) ~ Beta(k, N+1-k) (1-based), i.e. P[F(T_(k)) <= t] is the "
+        "binomial tail sum_{j>=k} C(N,j) t^j (1-t)^(N-j) = the integral of the normalised Beta density (Props/C01: count_below_is_binomial, "
+        "uniform_order_statistic_cdf, uniform_order_statistic_is_beta, simulated_critical_value_coverage_is_beta); and for a critical "
+        "value between T_(k) and T_(k') (the linear interpolation np.quantile returns) the distribution function of its coverage lies "
+        "between those of Beta(k', N+1-k') and Beta(k, N+1-k) (interpolated_critical_value_coverage_between_betas); lemmas in "
+        "OpdaProofs/OrderStatBeta.lean. The coverage of the code's critical value is therefore NOT claimed to be Beta distributed: it "
+        "is bracketed by two Beta variables, and the accepted window runs from the lower 5e-11 quantile of Beta(k, N+1-k) to the upper "
+        "5e-11 quantile of Beta(k+1, N-k), k = c*N (an integer for every confidence of the ld stratum; then floor(c(N-1))+1 = k for 0<c<1)",
+        "TRUSTED for the ld window: (i) the law of the simulated statistic max_i cov_i(U_(i)) has a continuous distribution function "
+        "(hypothesis of the Beta theorems, not proved); (ii) np.quantile(ts, c) is the linear interpolation between the order statistics "
+        "number floor(c(N-1))+1 and the next one (1-based; numpy's documented default, not formalised); (iii) scipy.stats.beta.ppf for "
+        "the two window quantiles (compared against the exact binomial polynomial in C15)",
         "level tables are read off the returned distributions through their public cdf (doubles taken as exact rationals); the "
         "hypotheses of the theorems are checked on every table before it is evaluated: levels in [0,1], non-decreasing, "
         "lower level 0 below the sample, upper level 1 at the largest observation",
@@ -31,14 +43,21 @@ TEXT = dict(
           "such measure the probability that the band contains the true CDF everywhere equals band.rect on the level tables "
           "(band_coverage_any_continuous_F; non-vacuous: standard normal, uniform); for dkw/ks tables the box is the Kolmogorov distance <= eps; the DKW "
           "radius solves 2exp(-2n eps^2)=1-c, is monotone in c and antitone in n; dkw coverage >= c conditional on the cited "
-          "DKW-Massart inequality; ld box <-> test statistic. Evaluated on every run with the proved evaluator on the code's own "
+          "DKW-Massart inequality; ld box <-> test statistic; the Beta law of a simulated order statistic: for N i.i.d. draws from any "
+          "probability measure with continuous distribution function F, P[F(T_(k)) <= t] = Beta(k, N+1-k) distribution function (binomial "
+          "count of draws below t under the product measure + probability integral transform), and the coverage of a critical value "
+          "interpolated between T_(k) and T_(k+1) (np.quantile) has its distribution function between those of Beta(k+1, N-k) and "
+          "Beta(k, N+1-k) -- a bracket, not a Beta law. Evaluated on every run with the proved evaluator on the code's own "
           "level tables: dkw >= c, ks = c +- 1e-12, ld inside the stated Beta interval, for n <= 40 (80 thorough), confidences incl. 0 "
           "and 1, finite and infinite bounds; Steck's determinant is evaluated alongside and must agree exactly.",
     note="For every continuous F the probability that a band with given level tables contains F everywhere is now a Lean theorem "
          "(rectangle probability, evaluated per table for n <= 80, + probability-integral transform; neither is cited any more); "
-         "DKW-Massart is only needed for the universal dkw claim beyond the evaluated tables, the Beta law of the simulated critical "
-         "value (ld) stays cited. n beyond 80 is evaluated by the Durbin matrix oracle for dkw/ks only.",
+         "DKW-Massart is only needed for the universal dkw claim beyond the evaluated tables. The Beta law of a simulated order statistic "
+         "(ld) is now a Lean theorem too, with the honest reading that the code's interpolated critical value has a coverage between two "
+         "Beta variables; the continuity of the statistic's distribution function and numpy's interpolation rule are assumed. n beyond 80 is evaluated by the Durbin matrix oracle for dkw/ks only.",
     technique="Lean 4 proof of the reduction (order-statistic box) and of the exact evaluator (cell decomposition of the unit cube, "
               "product measure), of the probability integral transform (sub-level sets of a continuous CDF are half-lines; "
-              "Measure.pi_map_pi; a monotone map commutes with order statistics) + exact rational evaluation of the boundary-crossing probability on the code's tables",
+              "Measure.pi_map_pi; a monotone map commutes with order statistics), of the binomial law of the count below a level under a product measure "
+              "(disjoint boxes indexed by the subset of coordinates below the level; Measure.pi_pi; grouping subsets by size) and its "
+              "identification with the Beta distribution function of C15 (derivative of the binomial tail telescopes) + exact rational evaluation of the boundary-crossing probability on the code's tables",
 )
